@@ -39,7 +39,9 @@ RULE = (
     "engine's latencies in whole microseconds so that operations start inside flush / compaction / split latencies; "
     "40 % of histories add 1-3 bursts of 2-5 one-shot clients starting within 0-12 us of one instant, often the same "
     "nanosecond; family lsm_big: memtables of 15-47 entries over 40-64 keys with 3-8 back-to-back writers, so that "
-    "SSTable sizes and flush durations differ) "
+    "SSTable sizes and flush durations differ; 10-15 % of puts write a falsy value 0 / 0.0 / '' / False / [] / {}; a "
+    "quarter of the concurrent LSM histories mix put_sync / get_sync into the clients; 8 % use max_levels=1; family "
+    "lsm_bulk: 1500-3200 keys in sorted batches, point read of every key) "
     "run inside a real Simulation against LSMTree (memtable 1-4 entries, 2-4 levels, size-tiered / leveled / FIFO "
     "thresholds 1-3, WAL on or off), BTree (order 3-5) and KVStore (no capacity); one-client programs mixing the "
     "generator API with put_sync/get_sync/delete_sync are compared with a dict exactly; transaction programs (2-5 "
@@ -92,12 +94,18 @@ def gen_concurrent(engine: str):
     def gen(rng: random.Random, tier: str) -> dict:
         if engine.startswith("lsm_"):
             cfg = gen_lsm_cfg(rng, engine[4:])
+            if rng.random() < 0.08:
+                cfg["max_levels"] = 1  # L0 compacts into itself
         elif engine == "btree":
             cfg = gen_btree_cfg(rng)
         else:
             cfg = gen_kv_cfg(rng)
         keys = gen_keys(rng)
         scale = _scale(cfg)
+        mix = MIX
+        if cfg["engine"] == "lsm" and rng.random() < 0.25:
+            # both write / read APIs on one tree: put_sync / get_sync land inside running flushes and compactions
+            mix = {"put": 0.32, "get": 0.24, "delete": 0.12, "scan": 0.12, "put_sync": 0.12, "get_sync": 0.08}
         n_clients = rng.randint(2, 6)
         total = rng.choice([12, 30, 60, 120])
         clients = []
@@ -106,11 +114,11 @@ def gen_concurrent(engine: str):
             clients.append(
                 {
                     "start": gen_think(rng, 2 * scale),
-                    "ops": gen_client_ops(rng, keys, n, scale, MIX, scans=cfg["engine"] != "kv"),
+                    "ops": gen_client_ops(rng, keys, n, scale, mix, scans=cfg["engine"] != "kv", falsy=0.12),
                 }
             )
         if rng.random() < 0.4:
-            clients += gen_burst_clients(rng, keys, scale, BURST_MIX, scans=cfg["engine"] != "kv")
+            clients += gen_burst_clients(rng, keys, scale, BURST_MIX, scans=cfg["engine"] != "kv", falsy=0.12)
         return {"store": cfg, "keys": keys, "clients": clients}
 
     return gen
@@ -159,7 +167,7 @@ def _windows(times: list[int], width_ns: int) -> list[tuple[int, int]]:
     return [(t - width_ns, t) for t in times]
 
 
-def _lsm_shape(read: dict, adm: list[dict], flush_w, comp_w) -> str:
+def _lsm_shape(read: dict, adm: list[dict], flush_w, comp_w, single_level=False) -> str:
     """Structural precondition of an inadmissible LSM read, most specific first.
 
     0. a flush that began later was installed before an older one and before the read ended: the newer SSTable
@@ -173,6 +181,9 @@ def _lsm_shape(read: dict, adm: list[dict], flush_w, comp_w) -> str:
     """
     t0, t1 = read["t0"], read["t1"]
     fw = sorted(flush_w)
+    if single_level and any(a < fb <= b and b <= t1 for a, b in comp_w for _, fb in fw):
+        # max_levels == 1: L0 is compacted into itself; a flush was installed during that compaction's write latency
+        return "flush-installed-during-in-place-compaction-of-L0"
     for i, (a, b) in enumerate(fw):
         # a flush that began earlier but was installed later than another one (bigger SSTable, more pages)
         if any(a < a2 and b2 < b and b2 <= t1 for a2, b2 in fw[i + 1 :]):
@@ -215,7 +226,7 @@ def check_history(case: dict, res: Result, store, hist, sampler):
 
     def shape_of(r, adm=()):
         if engine == "lsm":
-            return _lsm_shape(r, list(adm), flush_w, comp_w)
+            return _lsm_shape(r, list(adm), flush_w, comp_w, single_level=cfg.get("max_levels") == 1)
         if engine == "btree":
             return _btree_shape(r, sampler.splits)
         return "plain"
@@ -359,7 +370,30 @@ def gen_sequential(rng: random.Random, tier: str) -> dict:
         mix = {k: v for k, v in mix.items() if k.endswith("_sync")}
     keys = gen_keys(rng, 3, 10) if rng.random() < 0.8 else [f"key{i:03d}" for i in range(rng.choice([20, 40, 70]))]
     n = rng.choice([10, 40, 120]) if len(keys) <= 10 else rng.choice([120, 300])
-    ops = gen_client_ops(rng, keys, n, _scale(cfg) if style == "mixed" else 0.0, mix, scans=cfg["engine"] != "kv")
+    ops = gen_client_ops(rng, keys, n, _scale(cfg) if style == "mixed" else 0.0, mix, scans=cfg["engine"] != "kv", falsy=0.15)
+    return {"store": cfg, "keys": keys, "clients": [{"start": 0.0, "ops": ops}]}
+
+
+def gen_bulk(rng: random.Random, tier: str) -> dict:
+    """Thousands of keys loaded in non-overlapping sorted batches (put_sync, some put) so that levels >= 1 hold many
+    SSTables with disjoint key ranges, a sprinkle of overwrites / deletes, then a point read of every key
+    (final get_sync sweep + some generator gets): bloom-filter false positives of neighbouring tables are the norm."""
+    n_keys = rng.choice([1500, 2400, 3200])
+    keys = [f"key{i:05d}" for i in range(n_keys)]
+    cfg = gen_lsm_cfg(rng, "leveled", wal=False)
+    cfg["memtable_size"] = rng.choice([40, 50, 64])
+    cfg["max_levels"] = rng.choice([3, 4, 7])
+    cfg["strategy"] = {"kind": "leveled", "level_0_max": rng.choice([2, 3]), "size_ratio": 10, "base_size_keys": 100_000}
+    if rng.random() < 0.3:
+        cfg["strategy"] = {"kind": "size_tiered", "min_sstables": rng.choice([2, 3])}
+    ops = []
+    api = rng.choice(["put_sync", "put_sync", "put"])
+    for k in keys:
+        ops.append([0.0, api, k])
+    for _ in range(rng.randint(0, 60)):
+        ops.append([0.0, rng.choice(["put_sync", "delete", "put"]), rng.choice(keys)])
+    for _ in range(120):
+        ops.append([0.0, rng.choice(["get", "get_sync"]), rng.choice(keys)])
     return {"store": cfg, "keys": keys, "clients": [{"start": 0.0, "ops": ops}]}
 
 
@@ -439,6 +473,7 @@ FAMILIES = {
     "lsm_leveled": Family("lsm_leveled", gen_concurrent("lsm_leveled"), run_concurrent, shrink=shrink_ops),
     "lsm_fifo": Family("lsm_fifo", gen_concurrent("lsm_fifo"), run_concurrent, shrink=shrink_ops),
     "lsm_big": Family("lsm_big", gen_big, run_concurrent, shrink=shrink_ops),
+    "lsm_bulk": Family("lsm_bulk", gen_bulk, run_sequential),
     "btree": Family("btree", gen_concurrent("btree"), run_concurrent, shrink=shrink_ops),
     "kv": Family("kv", gen_concurrent("kv"), run_concurrent, shrink=shrink_ops),
     "sequential": Family("sequential", gen_sequential, run_sequential, shrink=shrink_ops),
@@ -448,14 +483,17 @@ FAMILIES = {
 # cases cost 1-5 ms but a fresh worker pays ~3 s to import the library: few, large shards
 for _f in FAMILIES.values():
     _f.shard_size = 150
+FAMILIES["lsm_bulk"].shard_size = 2
+FAMILIES["txn_long"].shard_size = 6
 
 BUDGET = {
-    "quick": {"lsm_size_tiered": 300, "lsm_leveled": 300, "lsm_fifo": 200, "lsm_big": 200, "btree": 250, "kv": 150, "sequential": 300, "txn": 600, "txn_long": 24},
+    "quick": {"lsm_size_tiered": 300, "lsm_leveled": 300, "lsm_fifo": 200, "lsm_big": 200, "lsm_bulk": 8, "btree": 250, "kv": 150, "sequential": 300, "txn": 600, "txn_long": 24},
     "thorough": {
         "lsm_size_tiered": 12000,
         "lsm_leveled": 12000,
         "lsm_fifo": 8000,
         "lsm_big": 6000,
+        "lsm_bulk": 200,
         "btree": 10000,
         "kv": 4000,
         "sequential": 10000,
